@@ -500,7 +500,12 @@ raise ValueError."""
         volatile = (source_type.type_qualifier & TYPE_QUALIFIER_VOLATILE)
 
         if source_type.type == CTYPE_VOID:
-            return 'void'
+            value = 'void'
+            if const:
+                value = 'const ' + value
+            if volatile:
+                value = 'volatile ' + value
+            return value
         elif source_type.type in [CTYPE_BASIC_TYPE,
                                   CTYPE_TYPEDEF,
                                   CTYPE_STRUCT,
